@@ -71,6 +71,10 @@ func New(s string) (FileMode, error) {
 // Please note this function does not check if the returned FileMode
 // is valid in git or if it is malformed.
 func FromBytes(b []byte) (FileMode, error) {
+	// git accepts any number of leading zeros (fsck only warns about them)
+	for len(b) > 1 && b[0] == '0' {
+		b = b[1:]
+	}
 	if len(b) == 0 || len(b) > 7 {
 		return Empty, fmt.Errorf("invalid mode length: %d", len(b))
 	}
